@@ -50,6 +50,12 @@ def sp_param(name, kind, value, quoted_ok=True):
         out = ["%s = %d" % (name, value), "%s(%d)" % (name, value)]
         if quoted_ok:
             out += ['%s = "%d"' % (name, value), '%s("%d")' % (name, value)]
+        if INT_RADIX and abs(value) < 2 ** 62:
+            # the same integer in another radix / with separators (a negative one is `-` in front of the literal)
+            sg, a = ("-" if value < 0 else ""), abs(value)
+            alts = ["%s0x%X" % (sg, a), "%s0b%s" % (sg, bin(a)[2:]), "%s0o%o" % (sg, a)] + (["%s%s" % (sg, "{:,}".format(a).replace(",", "_"))] if a >= 1000 else [])
+            for alt in alts:
+                out += ["%s = %s" % (name, alt), "%s(%s)" % (name, alt)]
         return out
     if kind == "expr":
         out = []
@@ -62,6 +68,9 @@ def sp_param(name, kind, value, quoted_ok=True):
         if value[0] == "none":
             return ["bound = false", "bound(false)", 'bound = ""']
         preds = ", ".join(value[1])
+        if not value[1]:
+            # an empty list of predicates: the impl gets no where-clause of its own
+            return ["bound()", 'bound = ""', 'bound("")']
         out = ["bound(%s)" % preds]
         if quoted_ok and '"' not in preds:
             out += ['bound = "%s"' % preds, 'bound("%s")' % preds]
@@ -70,6 +79,7 @@ def sp_param(name, kind, value, quoted_ok=True):
 
 
 FIXED_FIRST = ("kw", "type")
+INT_RADIX = True    # hexadecimal / binary / octal / underscore spellings of integer parameters
 DELIMITERS = True   # bracket / brace delimited `#[educe[..]]` among the random spellings
 
 
